@@ -61,10 +61,14 @@ def harness(tier, seed):
                     viol.append(("swap-distance/pairs", {"p1": a.tolist(), "p2": b.tolist()}, f"swap_distance={g3}, minimum={d}"))
     # ---- instances from sequences
     reps = 120 if tier == "quick" else 1500
-    for _ in range(reps):
+    tiny = [[0.0, 1e-13, 1.0, 1.0 + 2.0 ** -50, 3.0, 1e-13], [5e-324, 0.0, 1e-300, 2.0], [1e-14 * v for v in (3, 1, 4, 1, 5, 9, 2, 6)]]
+    for rep_ in range(reps + len(tiny)):
         k = rng.randint(2, 9)
         data = [rng.randint(-6, 6) for _ in range(k)]
         kind = rng.choice(["abs", "absabs", "sq", "absabs+1"])
+        if rep_ >= reps:
+            # positions that differ by tiny but positive amounts: only a distance of exactly zero merges two objects
+            data, kind = list(tiny[rep_ - reps]), "abs"
         # "absabs+1" is the distance function of the package's own doc-string example: positive everywhere, also for an
         # object and itself - nothing may be merged then, not even the same object occurring twice
         fdist = {"abs": lambda a, b: abs(a - b), "absabs": lambda a, b: abs(abs(a) - abs(b)),
